@@ -30,6 +30,20 @@ PROPS = {
                                     "deferred_rw"], 100000, 2500000) +
             wrappers("rdv", ["shared_guarded", "shared_guarded_opt", "ordered_guarded",
                              "deferred_rw"], 20000, 300000)},
+    "C07": {"jobs": [J("lr.races", "wl_lr", 100000, 3000000, mode="std", races=1),
+                     J("cow.races", "wl_cow", 60000, 1500000, mode="std", races=1),
+                     J("rcu.races", "wl_rcu", 80000, 2000000, mode="std", elem=0, races=1),
+                     J("rcu.races.string", "wl_rcu", 30000, 800000, mode="std", elem=1, races=1),
+                     J("deferred.races", "wl_deferred", 60000, 1500000, races=1),
+                     J("trip.races", "wl_trip", 60000, 1500000, mode="explicit", races=1),
+                     J("latch.races", "wl_latch", 60000, 1500000, races=1),
+                     J("barrier.races", "wl_barrier", 40000, 1000000, races=1),
+                     J("trigger.races", "wl_trigger", 40000, 1000000, races=1),
+                     J("soh.races", "wl_soh", 40000, 1000000, mode="std", races=1),
+                     J("dobj.races", "wl_dobj", 30000, 800000, races=1),
+                     J("dd.races", "wl_dd", 40000, 1000000, single=0, races=1)] +
+            wrappers("rw", ["guarded", "guarded_opt", "shared_guarded", "shared_guarded_opt",
+                            "ordered_guarded", "atomic_guarded"], 30000, 800000, races=1)},
     "C08": {"jobs": wrappers("handle", ["guarded", "guarded_opt", "shared_guarded",
                                         "shared_guarded_opt", "ordered_guarded", "deferred_rw"],
                              80000, 2000000) +
@@ -96,6 +110,66 @@ TEXT = {
               "enable flag; oracle compares handle nullness with the calling thread's held-lock set as seen at the simulated pthread layer, forbids "
               "untimed waits inside try/timed forms, bounds every timed wait by the requested duration/time point, detects double release",
               _NOTE, "seeded schedule search with held-lock-set oracle at the pthread layer"),
+    "C04": _t("seeded search over writers (commit, cancel, handle move-construct) and readers holding snapshots across later commits of "
+              "cow_guarded<CV, mutex|timed_mutex>; oracles: liveness registry + quarantine on snapshots, re-read equality (immutability), every write "
+              "handle starts from exactly the number of commits released so far (serialisation, no lost update), recency bounds for snapshots, "
+              "cancel leaves the handle null and the writer lock free, every value object destroyed exactly once",
+              _NOTE, "seeded schedule search with snapshot-immutability, commit-count and liveness oracles"),
+    "C05": _t("seeded search over traversing readers (pausing on elements), pushing/erasing writers and short-lived handles on "
+              "rcu_guarded<rcu_list<T>> with a tracking allocator and with std::allocator; every instrumented access, atomic operation and mem* range "
+              "is checked against the per-run quarantine (freed blocks are poisoned and never reused), dereferences are checked against a "
+              "liveness registry; stale reads enabled for the relaxed loads",
+              _NOTE, "seeded schedule search with quarantining heap and liveness registry (use-after-free oracle)"),
+    "C06": _t("seeded search over submitters (direct and queued path, forced by reader contention and spurious try-lock failures), readers and "
+              "drainers on deferred_guarded x 4 mutex types; online: exactly-once execution, exclusivity windows, real-time/program order of "
+              "execution; at quiescence one lock_shared must have applied every accepted function and every modify_async future is ready with its value/exception",
+              _NOTE, "seeded schedule search with exactly-once / ordering / quiescence history oracle"),
+    "C07": _t("union of all workloads run with the in-simulator happens-before race detector (vector clocks over mutex/rwlock/once/guard/spawn/join and "
+              "the atomics model) and the memory-model executor choosing stale reads for non-seq_cst loads; every pair of conflicting plain accesses "
+              "(payload, library internals, published data in latch/barrier/trigger/tripwire workloads) must be ordered",
+              _NOTE + "; accesses inside libstdc++.so are invisible to the detector", "seeded schedule and reads-from search with vector-clock race detection"),
+    "C09": _t("seeded search over 2..5 participants x 1..4 generations with arbitrary drop-outs, spurious wake-ups, lapping; oracle: at the return of an "
+              "n-th arrival the number of invoked n-th arrivals equals the statically required number; deadlock detector for lost wake-ups; published "
+              "per-generation slots under the race detector in C07",
+              _NOTE, "seeded schedule search with arrival-count oracle and deadlock detection"),
+    "C10": _t("seeded search over arrivers, waiters, arrive_and_wait participants, late waiters, over-arrival, spurious wake-ups; oracle: wait returns only "
+              "after >= count arrivals were invoked, all threads finish (lost wake-up = deadlock), lone arrivals return",
+              _NOTE, "seeded schedule search with arrival-count oracle and deadlock detection"),
+    "C11": _t("seeded search over activator / triggerers / waiters (wait, wait_for, waitActivation, wait_forActivation) / resetters over one or two "
+              "activation epochs with spurious wake-ups, time jumps (time-outs at arbitrary points) and stale reads; post-hoc history oracle over "
+              "invocation/response stamps that constrains only what the statement fixes",
+              _NOTE, "seeded schedule search with event-history oracle and deadlock detection"),
+    "C12": _t("seeded search over traversals and push_front/push_back/emplace/erase; per traversal: only pushed values, no duplicates, every stable "
+              "element visited; black-box serialisation search: some real-time-respecting order of the pushes must explain the final list order and "
+              "make every traversal a subsequence; final membership = pushed minus erased",
+              _NOTE, "seeded schedule search with serialisation search against a sequential reference list"),
+    "C13": _t("seeded search over handle acquisition/release, pushes, erases (also double erase), throwing emplace, for Tracked / std::string / trivially "
+              "destructible element types with a monitoring allocator (construct/destroy/allocate/deallocate state machine per pointer) and with "
+              "std::allocator; teardown accounting: everything allocated is destroyed and deallocated exactly once, nothing unconstructed is destroyed; "
+              "the list destructor (not a later handle) must reclaim in half of the runs",
+              _NOTE, "seeded schedule search with allocator state-machine monitor and teardown accounting"),
+    "C16": _t("seeded search over adders, external owners, destroyObjects()/destroyObjects(delay)/size callers, lock time-outs (time jumps), with callbacks "
+              "and element destructors that re-enter size/add/destroyObjects; oracles: destroyed exactly once and never while externally owned, callback "
+              "exactly once before reaped objects, self-deadlock detection on the internal timed_mutex, conservation at quiescence, destruction with the "
+              "container; the single-thread class runs the same generator sequentially",
+              _NOTE, "seeded schedule search with ownership registry, re-entrancy (self-deadlock) and conservation oracles"),
+    "C17": _t("seeded search over 1..3 clients issuing add/addType/copy/remove(name|predicate)/find*/checkObjectType/getObjects/empty on short and "
+              "heap-allocated names; Wing-Gong linearizability against a reference map whose predicate operations are nondeterministic; memory safety "
+              "through the quarantine (instrumented accesses and interposed memcmp/memcpy), liveness registry for returned objects",
+              _NOTE, "seeded schedule search with Wing-Gong linearizability check and quarantining heap"),
+    "C18": _t("seeded search over getFuture / setDelayedValue (copy, move; int and string keys; unknown and completed keys) / fulfillAllPromises / "
+              "finishedWithValue / queries / destruction with consumers blocked in future::get() inside the simulation (futex shim); any std::future_error "
+              "is a violation; Wing-Gong linearizability against a per-key life-cycle model fixes the admissible value of every future",
+              _NOTE, "seeded schedule search with life-cycle linearizability model and deadlock detection"),
+    "C19": _t("seeded search over trigger destruction variants (direct, move-constructed, move-assigned, chains) and polling detectors on explicit lines, "
+              "and on the declared/indexed static lines with every run in a fresh forked child; oracles: false* true* per detector, true only after the "
+              "duty-holder's destruction began, other lines untouched, out-of-range index throws, and the datum written before destruction is read "
+              "race-free (happens-before detector with stale reads enabled)",
+              _NOTE, "seeded schedule and reads-from search with trip-order oracle and race detection"),
+    "C20": _t("fault = k-th invocation of user code throws (functors, payload copy-ctor/assignment, predicates, callbacks, cow copy) combined with schedule "
+              "search; oracles: exception reaches the caller or the future, held-lock set restored, wrappers stay usable (deadlock detector), lr_guarded "
+              "all-or-nothing (throw at first application leaves the value, at second completes it; copies agree afterwards), payload never torn",
+              _NOTE, "throw-fault injection at user-code call sites combined with seeded schedule search"),
     "C14": _t("fault = writer suspended at its k-th visible step (freeze) while readers must complete full read acquisitions; plus overlapping "
               "hand-over-hand readers that never leave the object unread until the writer has finished (bounded-step liveness under fair scheduling)",
               _NOTE, "writer-freeze fault injection at every visible step plus bounded-liveness search"),
